@@ -14,7 +14,7 @@
 EXTENDS ReqReplyCore
 
 MonInit == [n |-> 0, ptimeout |-> FALSE, ids |-> {}, rids |-> {}, started |-> {}, cancelled |-> {}, answered |-> {},
-            returned |-> {}, closing |-> FALSE, ndup |-> 0, nspur |-> 0, bad |-> {},
+            returned |-> {}, closing |-> FALSE, ndup |-> 0, nspur |-> 0, crossed |-> {}, bad |-> {},
             calls |-> 0, resp |-> 0, ctx |-> 0, closedRet |-> 0, maxOut |-> 0, outOfOrder |-> 0, pings |-> 0, lateAns |-> 0]
 \* (a scenario whose process crashed is re-run isolated; if it crashes before logging, the runner synthesises a Reset without p)
 MonReset(e) == IF "p" \in DOMAIN e THEN [MonInit EXCEPT !.n = e.p.n, !.ptimeout = e.p.ptimeout] ELSE MonInit
@@ -36,6 +36,8 @@ OnRecv(m, e) ==
 
 OnSend(m, e) ==
     [m EXCEPT !.answered = IF e.how = "ans" /\ e.tag >= 1 THEN @ \cup {e.tag} ELSE @,
+              \* a response of another message kind that bears the id of this caller's outstanding request: the call fails with an error
+              !.crossed = IF e.how = "cross" /\ e.tag >= 1 /\ e.tag \notin m.returned THEN @ \cup {e.tag} ELSE @,
               !.ndup = @ + (IF e.how = "dup" THEN 1 ELSE 0),
               !.nspur = @ + (IF e.how = "spur" THEN 1 ELSE 0),
               \* an answer overtaking an older outstanding request
@@ -53,7 +55,7 @@ OnRet(m, e) ==
                [] e.err = "ctx" -> (IF "ctx" \in allowed THEN {} ELSE {"UnexpectedError"})
                [] e.err = "closed" -> (IF "closed" \in allowed THEN {} ELSE Disturbed(m, e.tag))
                [] e.err = "panic" -> {"WrongResponse"} \cup Disturbed(m, e.tag)    \* type assertion on a foreign response
-               [] OTHER -> Disturbed(m, e.tag)
+               [] OTHER -> IF e.tag \in m.crossed THEN {} ELSE Disturbed(m, e.tag)
     IN [m EXCEPT !.bad = @ \cup v \cup (IF e.tag \in m.returned THEN {"ReturnedTwice"} ELSE {}),
                  !.returned = @ \cup {e.tag},
                  !.resp = @ + (IF e.err = "" THEN 1 ELSE 0),
